@@ -185,5 +185,11 @@ theorem claim_is_stake_neutral_everywhere (w0 w w' : World) (hr : ReachG (clearM
     (del : Acct) (v : ValId) (d : Option Denom) (h : step (.claim del v d) w = (.ok (), w')) : SV w w' :=
   claim_is_stake_neutral_in_every_history w0 w w' hr del v d h
 
+
+/-- the reward-history filter every claim starts from is what the source says now (regenerated from x/alliance/types/params.go
+    on every run: a `for … range` loop appending to a named result; legacy entries without an alliance are kept) -/
+theorem reward_history_filter_is_the_source (r : List RewardHistory) (a : Denom) :
+    Generated.GetIndexByAlliance r a = .ok (histFilterByAlliance r a) := ArithTie.getIndexByAlliance_is_source r a
+
 end C13
 end Alliance
